@@ -179,6 +179,16 @@ theorem step_inv (p : Pipe) (op : PipeOp) (hI : Inv p) (hN : NoStuck p) (hok : t
     split
     · exact ⟨hI, hN⟩
     · exact ⟨⟨hI.ord, hI.le, hI.cl, hI.keys⟩, hN⟩
+  | writeError =>
+    simp only [Pipe.step, writeError]
+    split
+    · exact ⟨hI, hN⟩
+    · exact ⟨⟨hI.ord, hI.le, hI.cl, hI.keys⟩, hN⟩
+  | halfClose =>
+    simp only [Pipe.step, peerClosed]
+    split
+    · exact ⟨hI, hN⟩
+    · exact ⟨⟨hI.ord, hI.le, hI.cl, by simp [disconnect]⟩, by intro hv; simp [disconnect] at hv⟩
 
 theorem run_inv (p : Pipe) (ops : List PipeOp) (hI : Inv p) (hN : NoStuck p) (hok : traceOk p ops = true) :
     Inv (p.run ops) ∧ NoStuck (p.run ops) := by
@@ -287,6 +297,16 @@ theorem step_fromCommits (done : List PipeOp) (p : Pipe) (op : PipeOp) (h : From
     split
     · exact lift
     · exact lift
+  | writeError =>
+    simp only [Pipe.step, writeError]
+    split
+    · exact lift
+    · exact lift
+  | halfClose =>
+    simp only [Pipe.step, peerClosed]
+    split
+    · exact lift
+    · intro x hx; simp [disconnect] at hx; exact lift x (Or.inl hx)
 
 /-! ### send side and tear-down bookkeeping (no hypothesis on the history) -/
 
@@ -363,6 +383,19 @@ theorem step_inv2 (p : Pipe) (op : PipeOp) (h : Inv2 p) : Inv2 (p.step op) := by
     split
     · exact h
     · exact ⟨h.once, by simp [handed]; exact Nat.min_le_right _ _⟩
+  | writeError =>
+    simp only [Pipe.step, writeError]
+    split
+    · exact h
+    · exact ⟨h.once, h.sentLe⟩
+  | halfClose =>
+    simp only [Pipe.step, peerClosed]
+    split
+    · exact h
+    · rename_i hv
+      have := h.once
+      have hv2 : p.valid = true := by simpa using hv
+      exact ⟨by simp [disconnect, this, hv2], h.sentLe⟩
 
 theorem run_inv2 (p : Pipe) (ops : List PipeOp) (h : Inv2 p) : Inv2 (p.run ops) := by
   induction ops generalizing p with
@@ -374,13 +407,13 @@ has delivered every byte handed to `send` -/
 def NoLoss (p : Pipe) : Prop := p.valid = false → p.sent = p.handed.length
 
 theorem run_noLoss (p : Pipe) (ops : List PipeOp) (h : NoLoss p) (hok : traceOk p ops = true)
-    (hnd : PipeOp.drop ∉ ops) : NoLoss (p.run ops) := by
+    (hnd : PipeOp.drop ∉ ops) (hnh : PipeOp.halfClose ∉ ops) : NoLoss (p.run ops) := by
   induction ops generalizing p with
   | nil => exact h
   | cons op ops ih =>
     simp only [traceOk, Bool.and_eq_true] at hok
-    simp only [List.mem_cons, not_or] at hnd
-    refine ih (p.step op) ?_ hok.2 hnd.2
+    simp only [List.mem_cons, not_or] at hnd hnh
+    refine ih (p.step op) ?_ hok.2 hnd.2 hnh.2
     cases op with
     | req last => exact h
     | commit i r =>
@@ -410,7 +443,95 @@ theorem run_noLoss (p : Pipe) (ops : List PipeOp) (h : NoLoss p) (hok : traceOk 
       · exact h
       · rename_i hv
         intro hv'
+        have hv2 : p.valid = true := by
+          cases hpv : p.valid with
+          | true => rfl
+          | false => simp [hpv] at hv
+        simp [hv2] at hv'
+    | writeError =>
+      simp only [Pipe.step, writeError]
+      split
+      · exact h
+      · rename_i hv
+        intro hv'
         have hv2 : p.valid = true := by simpa using hv
         simp [hv2] at hv'
+    | halfClose => exact absurd rfl hnh.1
+
+/-! ### after a write error nothing more reaches the peer -/
+
+theorem flush_wb (f : Nat) (p : Pipe) : (flush f p).wbroken = p.wbroken := by
+  induction f generalizing p with
+  | zero => rfl
+  | succ k ih =>
+    unfold flush
+    split
+    · rfl
+    · dsimp only
+      split
+      · rfl
+      · rw [ih]
+
+theorem commit_wb (p : Pipe) (i : Nat) (r : Bytes) : (p.commit i r).wbroken = p.wbroken := by
+  unfold commit
+  split
+  · rfl
+  · split
+    · dsimp only
+      split
+      · rfl
+      · rw [flush_wb]
+    · rfl
+
+/-- the state a broken connection is frozen in, as far as the peer is concerned -/
+structure Frozen (p q : Pipe) : Prop where
+  wb : q.wbroken = true
+  sent : q.sent = p.sent
+  grow : ∃ extra, q.written = p.written ++ extra
+
+theorem step_frozen (p q : Pipe) (op : PipeOp) (h : Frozen p q) : Frozen p (q.step op) := by
+  obtain ⟨hw, hs, extra, he⟩ := h
+  cases op with
+  | req last => exact ⟨hw, hs, extra, he⟩
+  | commit i r =>
+    obtain ⟨⟨ex2, he2⟩, hs2, _, _⟩ := commit_grow q i r
+    exact ⟨by simp only [Pipe.step]; rw [commit_wb]; exact hw, by simp only [Pipe.step]; rw [hs2]; exact hs,
+      extra ++ ex2, by simp only [Pipe.step]; rw [he2, he]; simp⟩
+  | sendComplete =>
+    simp only [Pipe.step, sendComplete]
+    split
+    · exact ⟨hw, hs, extra, he⟩
+    · split
+      · exact ⟨hw, hs, extra, he⟩
+      · exact ⟨hw, hs, extra, he⟩
+  | drop =>
+    simp only [Pipe.step, peerClosed]
+    split
+    · exact ⟨hw, hs, extra, he⟩
+    · exact ⟨hw, hs, extra, he⟩
+  | kernel n =>
+    simp only [Pipe.step, kernel, hw, Bool.or_true, if_true]
+    exact ⟨hw, hs, extra, he⟩
+  | writeError =>
+    simp only [Pipe.step, writeError]
+    split
+    · exact ⟨hw, hs, extra, he⟩
+    · exact ⟨rfl, hs, extra, he⟩
+  | halfClose =>
+    simp only [Pipe.step, peerClosed]
+    split
+    · exact ⟨hw, hs, extra, he⟩
+    · exact ⟨hw, hs, extra, he⟩
+
+theorem run_frozen (p q : Pipe) (ops : List PipeOp) (h : Frozen p q) : Frozen p (q.run ops) := by
+  induction ops generalizing q with
+  | nil => exact h
+  | cons op ops ih => exact ih _ (step_frozen p q op h)
+
+theorem frozen_peerBytes {p q : Pipe} (h : Frozen p q) (hle : p.sent ≤ p.handed.length) : q.peerBytes = p.peerBytes := by
+  obtain ⟨_, hs, extra, he⟩ := h
+  unfold peerBytes handed
+  rw [hs, he, List.map_append, List.flatten_append]
+  exact List.take_append_of_le_length hle
 
 end Tbox.C12
